@@ -674,6 +674,7 @@ static Case gen_c19_inv() {
     return c;
 }
 
+#ifndef HARNESS_NO_MAIN
 int main(int argc, char **argv) {
     Harness h;
     h.prop = "C01";
@@ -695,3 +696,4 @@ int main(int argc, char **argv) {
     h.mode("c20", [] { rc_property("C20 forced checks", gen_c20, run_c20); }, run_c20);
     return harness_main(argc, argv, h);
 }
+#endif
